@@ -232,7 +232,7 @@ def run(ctx):
                         'spinodal_condition(extrapolate=False): extrapolated limit or lowest-k value both accepted']
     dk = math.pi / (DR * L)
     MF, MR = dense_transforms(L, DR, dk, FWD, BWD)
-    plans = [(2, [1, 2, 3, 101, 102]), (3, [1, 2, 3, 101, 102]), (4, [1, 2, 101])] if not thorough else [(2, list(range(1, 41)) + list(range(101, 121))), (3, list(range(1, 31)) + list(range(101, 117))), (4, list(range(1, 17)) + list(range(101, 109)))]
+    plans = [(2, [1, 2, 3, 101, 102]), (3, [1, 2, 3, 101, 102]), (4, [1, 2, 101])] if not thorough else [(2, list(range(1, 81)) + list(range(101, 141))), (3, list(range(1, 61)) + list(range(101, 133))), (4, list(range(1, 33)) + list(range(101, 117)))]
     for rank, seeds in plans:
         res = run_tlc('MC_Calculate', cfg(rank, list(seeds)), ctx.tmp, seed=ctx.seed)
         require_clean(res, 'Calculate rank %d' % rank)
